@@ -153,15 +153,22 @@ def run(ctx):
 
     # 1. design-level model checking (runs concurrently with the real builds below)
     def mc_all():
-        cfg = os.path.join(ctx.work, 'MC_JitBuild_run.cfg')
+        acts = ('Skip', 'WaitDep', 'Submit', 'SerialReturn', 'EndWalk', 'WaitAll', 'Link', 'Start', 'Finish')
         with open(os.path.join(SPEC, 'MC_JitBuild.cfg')) as fh:
             text = fh.read()
-        if not quick:
-            text = text.replace('MaxNoSrc = 1', 'MaxNoSrc = 4')
-        with open(cfg, 'w') as fh:
-            fh.write(text)
-        ctx.mc('MC_JitBuild', cfg, timeout=1500, workers=8,
-               required_actions=('Skip', 'WaitDep', 'Submit', 'SerialReturn', 'EndWalk', 'WaitAll', 'Link', 'Start', 'Finish'))
+        if quick:
+            # all DAGs on <= 4 objects: safety; all DAGs on <= 3 objects: safety + liveness (thorough: everything on <= 4)
+            variants = [text.replace('PROPERTY EventuallyLinked\n', ''), text.replace('MaxN = 4', 'MaxN = 3').replace('MaxNoSrc = 1', 'MaxNoSrc = 3')]
+        else:
+            variants = [text.replace('MaxNoSrc = 1', 'MaxNoSrc = 4')]
+
+        def one(iv):
+            cfg = os.path.join(ctx.work, f'MC_JitBuild_run{iv[0]}.cfg')
+            with open(cfg, 'w') as fh:
+                fh.write(iv[1])
+            ctx.mc('MC_JitBuild', cfg, timeout=2400, workers=6, required_actions=acts)
+        with cf.ThreadPoolExecutor(max_workers=2) as mex:
+            list(mex.map(one, enumerate(variants)))
         # negative control: the model started from a stale future must break LinkAfterAll
         r = ctx.tlc('MC_JitBuild', 'MC_JitBuild_stale.cfg', workers=2, timeout=600)
         if r.invariant_violated != 'LinkAfterAll':
@@ -288,3 +295,57 @@ def run(ctx):
         'library equality = archive member list + defined global symbols per member (object code bytes embed the build directory)',
         'every build runs in a fresh python process; cross-process ordering relies only on O_APPEND line order',
     ]
+
+
+def selftest(ctx):
+    """Sensitivity of Trace_JitBuild (no Loki involved): a hand-written good log is accepted, every
+    corruption of a recorded field is rejected by the expected clause."""
+    import copy
+
+    def ev(a, o, w=0, rc=0):
+        return {'a': a, 'o': o, 'w': w, 'rc': rc}
+    good = {'scen': 'plain', 'n': 3, 'deps': [[], [1], [1, 2]], 'src': [True, True, True], 'W': 2, 'order': [1, 2, 3],
+            'model': True, 'built': True, 'members': ['a.o', 'b.o', 'c.o'], 'base_built': True,
+            'base_members': ['a.o', 'b.o', 'c.o'],
+            'events': [ev('submit', 1), ev('start', 1, 1), ev('end', 1, 1), ev('submit', 2), ev('start', 2, 2),
+                       ev('end', 2, 2), ev('submit', 3), ev('start', 3, 1), ev('end', 3, 1), ev('link', 0)]}
+    cases, expect = [good], ['ok']
+
+    def add(clause, fn):
+        c = copy.deepcopy(good)
+        fn(c)
+        cases.append(c)
+        expect.append(clause)
+    add('P-StartAfterDepsFinished:early-submit', lambda c: c['events'].insert(5, c['events'].pop(6)))
+    add('P-AtMostOnce:second-start', lambda c: c['events'].insert(9, ev('start', 2, 2)))
+    add('P-LinkAfterAll:object-never-compiled', lambda c: c['events'].insert(8, c['events'].pop(9)))
+    add('P-SameLibraryAsSerial:members', lambda c: c.update(members=['a.o', 'b.o']))
+    add('P-SameLibraryAsSerial:build-outcome', lambda c: c.update(built=False))
+
+    def two_tasks(c):
+        c.update(deps=[[], [], [1, 2]])
+        c['events'] = [ev('submit', 1), ev('submit', 2), ev('start', 1, 1), ev('start', 2, 1), ev('end', 1, 1), ev('end', 2, 1),
+                       ev('submit', 3), ev('start', 3, 1), ev('end', 3, 1), ev('link', 0)]
+    add('M-worker-runs-two-tasks', two_tasks)
+    add('M-compile-failed', lambda c: c['events'][2].update(rc=1))
+
+    def serial_wrong_order(c):
+        c.update(W=1, order=[2, 1, 3])
+        c['events'] = [ev('submit', 2), ev('start', 2, 1), ev('end', 2, 1), ev('submit', 1), ev('start', 1, 1), ev('end', 1, 1),
+                       ev('submit', 3), ev('start', 3, 1), ev('end', 3, 1), ev('link', 0)]
+    add('P-StartAfterDepsFinished', serial_wrong_order)
+
+    def too_many(c):
+        c.update(deps=[[], [], []])
+        c['events'] = [ev('submit', 1), ev('submit', 2), ev('submit', 3), ev('start', 1, 1), ev('start', 2, 2), ev('start', 3, 3),
+                       ev('end', 1, 1), ev('end', 2, 2), ev('end', 3, 3), ev('link', 0)]
+    add('M-more-workers-than-W', too_many)
+    verdicts = ctx.validate('Trace_JitBuild', 'Trace_JitBuild', cases, timeout=300)
+    bad = 0
+    for i, exp in enumerate(expect):
+        ok, clause, _ = verdicts[i]
+        got = 'ok' if ok else clause
+        flag = 'ok ' if got == exp else 'BAD'
+        bad += got != exp
+        print(f'selftest C44 {flag} case {i}: expected {exp}, TLC said {got}')
+    return 1 if bad else 0
